@@ -411,6 +411,16 @@ func init() {
 			e.H.notes = append(e.H.notes, constStr(args[0], "note"))
 			return nil
 		},
+		"vLogInts": func(e *Engine, fr *Frame, s *State, f *ssa.Function, args []Value, pos string) Value {
+			msg := fmt.Sprintf("%s %d %d", constStr(args[0], "label"), constInt(args[1], "a"), constInt(args[2], "b"))
+			for _, n := range e.H.notes {
+				if n == msg {
+					return nil
+				}
+			}
+			e.H.notes = append(e.H.notes, msg)
+			return nil
+		},
 		"vPrune": func(e *Engine, fr *Frame, s *State, f *ssa.Function, args []Value, pos string) Value {
 			e.H.pruneForks = args[0].(*Term).IsTrue()
 			return nil
@@ -508,6 +518,12 @@ func init() {
 			v := args[2].(*Iface).Val
 			e.storeRaw(s, e.ptrAdd(p, k), v)
 			return nil
+		},
+		"vIsAbstractZ": func(e *Engine, fr *Frame, s *State, f *ssa.Function, args []Value, pos string) Value {
+			p := args[0].(*Iface).Val.(*Ptr)
+			v := e.load(s, p, leafT, pos, fr)
+			t, ok := v.(*Term)
+			return e.st.Bool(ok && t.S == IntSort)
 		},
 		"vGetZ":  getCell(IntSort),
 		"vGetPt": getCell(BV(64)),
